@@ -514,6 +514,11 @@ def truth(v, facts):
                 if any(r is True for r in rs):
                     return True
                 return False if all(r is False for r in rs) else None
+            rg = app(a[1], "range")
+            if rg is not None and 1 <= len(rg[1]) <= 2 and not any(isinstance(x, str) for x in rg[1]):
+                # (pass 5) `k in range(n)` for an integer k (an index): 0 <= k < n;  range(a, b): a <= k < b
+                lo, hi = (F.const(0), rg[1][0]) if len(rg[1]) == 1 else (rg[1][0], rg[1][1])
+                return truth(F.fn("bool:And", F.fn("cmp:GtE", a[0], lo), F.fn("cmp:Lt", a[0], hi)), facts)
     return None
 
 
@@ -539,6 +544,9 @@ def str_parts(v):
         return out
     if app(v, "fmt") is not None:
         return [v]
+    u = app(v, "ite")
+    if u is not None and len(u[1]) == 3 and not any(isinstance(x, str) for x in u[1]) and str_parts(u[1][1]) is not None and str_parts(u[1][2]) is not None:
+        return [v]          # (pass 5) a string chosen by a test ("(" if right else "["): one part, resolved by whoever decides the test
     return None
 
 
@@ -578,6 +586,8 @@ class Trace:
                              # not a view of a known array, a tracked array handed to an own helper that is not followed): the recorded content of
                              # the arrays may then be incomplete, so nothing that is read from them may be judged
         self.compvars = {}   # key of a comp(...) value -> name of its own loop symbol
+        self.born_exact = {} # (pass 5) ... -> were all its array operands read at that moment (subscripts of the arrays themselves, not locals computed earlier)
+        self.born = {}       # (pass 5) key of a comparison value -> clock (seq) when it was first formed: its operands were read no later than that
 
 
 def module_names(mod):
@@ -616,6 +626,52 @@ def module_consts(ctx, rel):
     return _module_consts(ctx.src, rel)
 
 
+_PURE_BUILTINS = {"tuple", "list", "str", "len", "range", "zip", "enumerate", "dict", "int", "float", "reversed", "sorted", "min", "max", "sum", "abs", "round",
+                  "frozenset", "set", "bool"}
+
+
+def _is_const_value(v, depth=4):
+    """a value made of numbers and string literals only (nested tuples, a literal table)"""
+    if v is None or is_unknown(v) or isinstance(v, str) or depth <= 0:
+        return False
+    if isinstance(v, tuple):
+        return all(_is_const_value(x, depth - 1) for x in v)
+    if const_of(v) is not None:
+        return True
+    sp = str_parts(v)
+    if sp is not None:
+        return len(sp) == 1 and isinstance(sp[0], str)
+    u = app(v)
+    if u is not None and u[0] in ("dict", "tuple") and not any(isinstance(x, str) for x in u[1]):
+        return all(_is_const_value(x, depth - 1) for x in u[1])
+    return False
+
+
+def _folded_const(src, node, known):
+    """value of a module-level expression that reads nothing but literals, constants bound earlier, its own comprehension variables and pure
+    builtins - evaluated like function code (comprehensions over literals are expanded, f-strings of integer constants are strings); None
+    when the expression reads anything else or does not come out as a constant"""
+    own = {x.id for x in ast.walk(node) if isinstance(x, ast.Name) and isinstance(x.ctx, ast.Store)}
+    for x in ast.walk(node):
+        if isinstance(x, ast.Name) and isinstance(x.ctx, ast.Load) and x.id not in known and x.id not in own and x.id not in _PURE_BUILTINS:
+            return None
+        if isinstance(x, (ast.Lambda, ast.Await, ast.Yield, ast.YieldFrom, ast.NamedExpr, ast.Starred)):
+            return None
+        if isinstance(x, ast.Attribute) and not (x.attr in ("join", "format", "upper", "lower", "split") and isinstance(x.value, (ast.Constant, ast.Name))):
+            return None
+    try:
+        ev = XEval(None, env=dict(known), src=src)
+        v = ev.ev(node)
+    except Exception:  # noqa
+        return None
+    if isinstance(v, tuple) and any(isinstance(x, tuple) for x in v):
+        try:
+            v = tuple(wrap(x) if isinstance(x, tuple) else x for x in v)
+        except Unsupported:
+            return None
+    return v if _is_const_value(v) else None
+
+
 def _module_consts(src, rel):
     m = src.mod(rel)
     if getattr(m, "_c10_consts", None) is not None:
@@ -643,6 +699,12 @@ def _module_consts(src, rel):
                 lit = all(isinstance(n, (ast.Constant, ast.BinOp, ast.UnaryOp, ast.Tuple, ast.List, ast.Subscript, ast.Slice, ast.operator, ast.unaryop, ast.expr_context))
                           or (isinstance(n, ast.Name) and n.id in out) for n in ast.walk(st.value)) and not isinstance(st.value, ast.Constant)
             if not lit:
+                # (pass 5) a constant *computed* from literals and earlier constants by pure builtins: a comprehension over a literal
+                # (`[f"b={b}" for b in (4, 8, 12)]`), tuple(...) / dict(zip(...)) / "sep".join(...) / str.format of those
+                v = _folded_const(src, st.value, out)
+                if v is not None:
+                    out[st.targets[0].id] = v
+                    continue
                 out.pop(st.targets[0].id, None)        # re-bound to something that is not a constant
                 continue
             if isinstance(st.value, ast.Constant) and st.value.value is None:
@@ -693,6 +755,32 @@ class XEval(AutoEvaluator):
             for n in ast.walk(fn):
                 if isinstance(n, ast.Global):
                     self.locals_ -= set(n.names)
+            # (pass 5) a local that is only ever bound to a dict display / dict(...) is a table of values, not an array: `t[key] = v` updates the table
+            dict_bound, other_bound = set(), set()
+            for n in ast.walk(fn):
+                if isinstance(n, ast.Assign):
+                    for t in n.targets:
+                        pairs = [(t, n.value)]
+                        if isinstance(t, (ast.Tuple, ast.List)) and isinstance(n.value, (ast.Tuple, ast.List)) and len(t.elts) == len(n.value.elts):
+                            pairs = list(zip(t.elts, n.value.elts))
+                        for tt, vv in pairs:
+                            if isinstance(tt, ast.Name):
+                                isd = (isinstance(vv, ast.Dict) and all(k is not None for k in vv.keys)) or \
+                                      (isinstance(vv, ast.Call) and dotted(vv.func) == "dict" and not vv.args and all(k.arg is not None for k in vv.keywords))
+                                (dict_bound if isd else other_bound).add(tt.id)
+                            else:
+                                other_bound.update(x.id for x in ast.walk(tt) if isinstance(x, ast.Name) and isinstance(x.ctx, ast.Store))
+                elif isinstance(n, (ast.For, ast.AugAssign, ast.AnnAssign, ast.NamedExpr, ast.With, ast.comprehension)):
+                    tgt = n.target if not isinstance(n, ast.With) else None
+                    if isinstance(n, ast.AugAssign) and not isinstance(n.target, ast.Name):
+                        tgt = None
+                    if isinstance(n, ast.With):
+                        for it_ in n.items:
+                            if it_.optional_vars is not None:
+                                other_bound.update(x.id for x in ast.walk(it_.optional_vars) if isinstance(x, ast.Name))
+                    if tgt is not None:
+                        other_bound.update(x.id for x in ast.walk(tgt) if isinstance(x, ast.Name) and isinstance(x.ctx, ast.Store))
+            self.buffers -= (dict_bound - other_bound - {x.arg for x in a.posonlyargs + a.args + a.kwonlyargs})
             mod = getattr(fn, "_vmod", None)
             self.globals_ = module_names(mod) if mod is not None else None
             # a local created by an allocation is an array even when only helpers store into it (through a view passed as argument)
@@ -811,6 +899,16 @@ class XEval(AutoEvaluator):
             if c is not None and c.denominator == 1 and -len(base) <= c < len(base):
                 return base[int(c)]
             return F.fn("idx", wrap(base), wrap(ix))
+        tu = app(base, "transposed")
+        if tu is not None and len(tu[1]) == 1 and not isinstance(tu[1][0], str):
+            # T.T[k] is the column T[:, k];  T.T[i, j] is T[j, i]
+            ixw = wrap(ix)
+            t = app(ixw, "tuple")
+            if t is None and self._scalar_index(ixw):
+                return self.mk_idx(tu[1][0], F.fn("tuple", F.fn("slice", NONE, NONE, NONE), ixw))
+            if t is not None and len(t[1]) == 2 and not any(isinstance(x, str) for x in t[1]):
+                return self.mk_idx(tu[1][0], F.fn("tuple", t[1][1], t[1][0]))
+            return Unknown("index into a transposed table")
         ix = self._from_end(base, norm_index(wrap(ix)))
         u = app(base)
         if u is not None and u[0] in self.RAINFLOW:
@@ -861,6 +959,9 @@ class XEval(AutoEvaluator):
                 t1 = app(ix, "tuple")
                 rest = list(t1[1]) if t1 is not None else [ix]
                 return F.fn("idx", b0, F.fn("tuple", *(first + rest)))
+            if len(first) >= 2 and _full_slice(first[0]) and all(self._scalar_index(x) for x in first[1:]) and self._scalar_index(ix):
+                # (pass 5) X[:, k][i] is X[i, k]: an element of a column taken as a view
+                return F.fn("idx", b0, F.fn("tuple", ix, *first[1:]))
             s = app(first[-1], "slice")
             if s is not None and all(self._scalar_index(x) for x in first[:-1]) and self._scalar_index(ix) and const_of(ix) is None:
                 lo, hi, stp = s[1]
@@ -879,6 +980,12 @@ class XEval(AutoEvaluator):
         u = app(av)
         if u is None:
             return False
+        if u[0] == "idx":
+            # (pass 5) one element of an allocated array: as many scalar indices as the allocation has axes (Amax[j] with Amax = np.zeros(LF))
+            b, ix = peel(av)
+            s = sym_of(b)
+            rank = self._rank(s) if s is not None else None
+            return rank is not None and len(ix) == rank and all(not isinstance(x, str) and self._scalar_index(x) for x in ix)
         if u[0] in self.SCALAR_CALLS:
             return not any(isinstance(x, str) or (app(x) or ("",))[0].startswith("kw:axis") for x in u[1]) and len([x for x in u[1] if not (app(x) or ("",))[0].startswith("kw:")]) == 1
         if u[0] == "abs" and len(u[1]) == 1 and single_atom(u[1][0]) is not None:
@@ -1007,7 +1114,9 @@ class XEval(AutoEvaluator):
             if is_unknown(a) or is_unknown(b):
                 return a if is_unknown(a) else b
             try:
-                return F.fn("cmp:" + type(node.ops[0]).__name__, wrap(a), wrap(b))
+                cv = F.fn("cmp:" + type(node.ops[0]).__name__, wrap(a), wrap(b))
+                self._born(cv, node)
+                return cv
             except Unsupported as e:
                 return Unknown(str(e))
         if isinstance(node, ast.IfExp):
@@ -1071,6 +1180,10 @@ class XEval(AutoEvaluator):
                 if len(real) == 1 and not isinstance(b, tuple) and not is_unknown(b):
                     m = real[0]
                     pre, post = pa[0][:m.start()].replace("%%", "%"), pa[0][m.end():].replace("%%", "%")
+                    cb = const_of(b)
+                    if m.group() in ("%d", "%i", "%s") and cb is not None and cb.denominator == 1 \
+                            and not (isinstance(node.right, ast.Constant) and isinstance(node.right.value, float)):
+                        return mk_str([pre, str(int(cb)), post])                         # "b=%d" % 4
                     return mk_str([pre, F.fn("fmt", need(b), m.group(), ""), post])      # "{:.%df}" % precision
                 return Unknown("% formatting")
         if isinstance(node, ast.BinOp) and isinstance(node.op, ast.Add):
@@ -1088,13 +1201,31 @@ class XEval(AutoEvaluator):
                     return r
             return need(a) + need(b)
         if isinstance(node, ast.Attribute) and node.attr == "T":
-            return self._ev(node.value)
+            return self._transposed(self._ev(node.value))
         if isinstance(node, ast.Attribute) and node.attr == "values":
             return self._ev(node.value)                  # the array behind a Series / DataFrame
         if isinstance(node, ast.Attribute) and node.attr in self.CYCLE_COLUMNS and isinstance(node.value, ast.Name) and node.value.id in self.env:
             b = self._ev(node.value)
             if head(b) in self.RAINFLOW:
                 return F.fn("idx", need(b), F.sym(repr(node.attr)))          # T.amp is T["amp"]
+        if isinstance(node, ast.Attribute) and isinstance(node.value, ast.Name) and node.value.id in self.env and node.value.id not in self.buffers \
+                and f"{node.value.id}.{node.attr}" not in self.env:
+            # (pass 5) a field of a record built by SimpleNamespace(name=value, ...) or by a module-level namedtuple: the value handed in
+            bu = app(self.env[node.value.id]) if not isinstance(self.env[node.value.id], tuple) else None
+            if bu is not None and bu[0] in ("call:SimpleNamespace", "call:types.SimpleNamespace") and not any(isinstance(a, str) for a in bu[1]):
+                for a in bu[1]:
+                    k = app(a)
+                    if k is not None and k[0] == "kw:" + node.attr and len(k[1]) == 1 and not isinstance(k[1][0], str):
+                        return untuple(k[1][0])
+            if bu is not None and bu[0].startswith("call:") and bu[0][5:].isidentifier() and not any(isinstance(a, str) for a in bu[1]):
+                fields = self._record_fields(bu[0][5:])
+                if fields is not None and node.attr in fields and len(bu[1]) == len(fields) and not any((app(a) or ("",))[0].startswith("kw:") for a in bu[1]):
+                    return untuple(bu[1][fields.index(node.attr)])
+        if isinstance(node, ast.Subscript) and dotted(node.value) in ("np.s_", "np.index_exp", "numpy.s_"):
+            try:
+                return self._index_value(node.slice)          # np.s_[:, :-1] is the index itself
+            except Unsupported as e:
+                return Unknown(str(e))
         if isinstance(node, ast.Attribute) and node.attr == "shape" and isinstance(node.value, ast.Name) and node.value.id in self.buffers:
             al = self.tr.allocs.get(sym_of(self.env.get(node.value.id)) or "")
             if al is not None and al[0] in ("np.zeros", "np.empty", "np.ones", "np.full"):
@@ -1143,6 +1274,61 @@ class XEval(AutoEvaluator):
         if isinstance(node, ast.BinOp) and isinstance(node.op, ast.MatMult):
             return self._dot(self._ev(node.left), self._ev(node.right))
         return super()._ev(node)
+
+    def _born(self, cv, node):
+        """(pass 5) remember when a comparison value was first formed, and whether every array it reads was read right there: the expression
+        subscripts the arrays themselves (or views of them); a local holding a value *computed* from an array earlier carries an older
+        content of that array into the comparison"""
+        key = (cv.n.key(), cv.d.key())
+        if key in self.tr.born:
+            return
+        exact = True
+        for n in ast.walk(node):
+            if isinstance(n, ast.Name) and isinstance(n.ctx, ast.Load) and n.id not in self.buffers and n.id in self.env:
+                x = self.env[n.id]
+                for y in ([x] if not isinstance(x, tuple) else list(x)):
+                    if y is None or isinstance(y, (str, tuple)):
+                        continue
+                    if is_unknown(y):
+                        exact = False
+                        continue
+                    if self._view(y) is not None:
+                        continue
+                    if any(sym_of(z) in self.tr.inits or any(c[0] == sym_of(z) for c in self.tr.cells) for z in walk(y) if sym_of(z) is not None):
+                        exact = False
+        self.tr.born[key] = self.tr.seq
+        self.tr.born_exact[key] = exact
+
+    def _transposed(self, v):
+        """x.T / np.transpose(x): matrices are commuting symbols for the algebra, so the transposition is dropped - except on an allocated 2-D
+        table, whose rows and columns are told apart when it is indexed or unpacked (`a, b, c = T.T` are its columns)"""
+        s = sym_of(v)
+        if s is not None and s in self.tr.inits and self._rank(s) == 2:
+            return F.fn("transposed", v)
+        u = app(v, "transposed") if not isinstance(v, (tuple, str)) and v is not None and not is_unknown(v) else None
+        if u is not None and len(u[1]) == 1 and not isinstance(u[1][0], str):
+            return u[1][0]
+        return v
+
+    def _record_fields(self, name):
+        """field names of a record type bound at module level by  Name = namedtuple("...", [fields] | "a b c")  in the module of the evaluated
+        function (or of the rule's home function); None when there is no such binding"""
+        for mod in (getattr(self.fn, "_vmod", None), self.home):
+            tree = getattr(mod, "tree", None)
+            if tree is None:
+                continue
+            for st in tree.body:
+                if isinstance(st, ast.Assign) and len(st.targets) == 1 and isinstance(st.targets[0], ast.Name) and st.targets[0].id == name \
+                        and isinstance(st.value, ast.Call) and dotted(st.value.func) in ("namedtuple", "collections.namedtuple") and len(st.value.args) == 2 \
+                        and not st.value.keywords:
+                    try:
+                        f = ast.literal_eval(st.value.args[1])
+                    except Exception:  # noqa
+                        return None
+                    if isinstance(f, str):
+                        f = f.replace(",", " ").split()
+                    return list(f) if all(isinstance(x, str) for x in f) else None
+        return None
 
     def _dot(self, a, b):
         if is_unknown(a) or is_unknown(b):
@@ -1463,7 +1649,9 @@ class XEval(AutoEvaluator):
             if is_unknown(a) or is_unknown(b):
                 return a if is_unknown(a) else b
             try:
-                return F.fn("cmp:" + self.FUNC_CMP[d], wrap(a), wrap(b))
+                cv = F.fn("cmp:" + self.FUNC_CMP[d], wrap(a), wrap(b))
+                self._born(cv, node)
+                return cv
             except Unsupported as e:
                 return Unknown(str(e))
         if d in self.FUNC_ARITH and nargs == 2 and kws <= {"out"}:
@@ -1511,6 +1699,43 @@ class XEval(AutoEvaluator):
                 for i, x in enumerate(seq):
                     parts += (sep if i else []) + str_parts(x)
                 return mk_str(parts)                            # ", ".join((f, f))
+        if isinstance(node.func, ast.Attribute) and node.func.attr == "format" and nargs >= 1 and not kws:
+            # "b={}".format(4): plain fields filled with integer constants / string literals give the string itself
+            fsp = str_parts(self.ev(node.func.value))
+            if fsp is not None and len(fsp) == 1 and isinstance(fsp[0], str):
+                import re as _re
+                vals = []
+                for a in node.args:
+                    x = self.ev(a)
+                    c = const_of(x)
+                    sp = str_parts(x) if not isinstance(x, tuple) and not is_unknown(x) else None
+                    if c is not None and c.denominator == 1 and not (isinstance(a, ast.Constant) and isinstance(a.value, float)):
+                        vals.append(str(int(c)))
+                    elif sp is not None and len(sp) == 1 and isinstance(sp[0], str):
+                        vals.append(sp[0])
+                    else:
+                        vals = None
+                        break
+                if vals is not None and _re.fullmatch(r"(?:[^{}]|\{\{|\}\}|\{\d*\})*", fsp[0]):
+                    try:
+                        return F.sym(repr(fsp[0].format(*vals)))
+                    except (IndexError, ValueError, KeyError):
+                        pass
+        if isinstance(node.func, ast.Attribute) and node.func.attr == "split" and nargs <= 1 and not kws:
+            # "G1 G2 G4".split() / "a,b".split(","): the tuple of the pieces
+            ssp = str_parts(self.ev(node.func.value))
+            sep = str_parts(self.ev(node.args[0])) if nargs else None
+            if ssp is not None and len(ssp) == 1 and isinstance(ssp[0], str) and (not nargs or (sep is not None and len(sep) == 1 and isinstance(sep[0], str) and sep[0])):
+                return tuple(F.sym(repr(x)) for x in (ssp[0].split(sep[0]) if nargs else ssp[0].split()))
+        if d in ("itertools.pairwise", "it.pairwise", "pairwise") and nargs == 1 and not kws:
+            v = self.ev(node.args[0])
+            if not is_unknown(v) and not isinstance(v, tuple):
+                return F.fn("zip", need(v), self.mk_idx(v, F.fn("slice", F.const(1), NONE, NONE)))       # pairwise(b) is zip(b, b[1:])
+        if d == "slice" and 1 <= nargs <= 3 and not kws:
+            vs = [self.ev(a) for a in node.args]
+            if not any(is_unknown(v) or isinstance(v, tuple) for v in vs):
+                vs = [NONE, vs[0], NONE] if nargs == 1 else (vs + [NONE] if nargs == 2 else vs)
+                return F.fn("slice", *[need(v) for v in vs])         # slice(a, b) is the index a:b
         if d in ("np.arange", "numpy.arange") and 1 <= nargs <= 3 and kws <= {"dtype"}:
             # np.arange(0, n) / np.arange(0, n, 1) / np.arange(n, dtype=float) / np.arange(0.0, n): the integers 0 .. n-1 (as floats or not)
             vs = [self.ev(a) for a in node.args]
@@ -1548,6 +1773,9 @@ class XEval(AutoEvaluator):
             v = self.ev(node.args[0])
             if is_unknown(v) or isinstance(v, tuple):
                 return v if is_unknown(v) else Unknown("str of a tuple")
+            cv = const_of(v)
+            if cv is not None and cv.denominator == 1 and not (isinstance(node.args[0], ast.Constant) and isinstance(node.args[0].value, float)):
+                return F.sym(repr(str(int(cv))))                     # str(4)
             return v if str_parts(v) is not None else F.fn("fmt", need(v), "", "")
         if d in ("np.atleast_1d", "np.atleast_2d") and nargs > 1 and not kws:
             return tuple(self.ev(a) for a in node.args)
@@ -1557,7 +1785,7 @@ class XEval(AutoEvaluator):
                 return v if is_unknown(v) else tuple(need(x) * need(x) for x in v)
             return need(v) * need(v)
         if d in ("np.transpose",) and nargs == 1 and not kws:
-            return self.ev(node.args[0])
+            return self._transposed(self.ev(node.args[0]))
         if d == "np.tile" and nargs == 2 and not kws:
             self._record_call(node)
             v = self.ev(node.args[0])
@@ -1927,10 +2155,46 @@ class XEval(AutoEvaluator):
             self.tr.cells.append((root, ix, v, st))
             self.tr.cellx.append(dict(guard=tuple(self.path), loops=self._loops(), seq=self.tr.seq, aug=aug))
             self.stores.append((root, ast.unparse(target.slice), v, st))
+            if not aug and not is_unknown(v) and not isinstance(v, tuple) and v is not None and not is_unknown(ix) and depends(v, root) and self._view(self.mk_idx(F.sym(root), ix)):
+                # (pass 5) `levels = B[j] * amax; B[j] = levels`: from here on the local holds what B[j] holds (the row was computed from the row's
+                # previous content, which no value can name any more) - reads through the local are reads of the stored row, as in `B[j] *= amax`
+                for k, x in list(self.env.items()):
+                    if not k.startswith("<") and k not in self.buffers and not isinstance(x, tuple) and x is not None and not is_unknown(x) and same(x, v):
+                        self.env[k] = self.mk_idx(F.sym(root), ix)
             return
         if isinstance(target, ast.Name):
             if target.id not in self.pinned:
                 self.env[target.id] = v
+            return
+        if isinstance(target, ast.Subscript) and isinstance(target.value, ast.Name) and target.value.id not in self.buffers and target.value.id in self.env \
+                and not isinstance(self.env[target.value.id], tuple) and app(self.env[target.value.id], "dict") is not None:
+            # (pass 5) `table[key] = value` on a local dict: the table with that entry (a literal key; anything else leaves the table undetermined)
+            nm = target.value.id
+            du = app(self.env[nm], "dict")
+            try:
+                key = self._index_value(target.slice)
+            except Unsupported:
+                key = None
+            lit = key is not None and (const_of(key) is not None or (str_parts(key) is not None and len(str_parts(key)) == 1 and isinstance(str_parts(key)[0], str)))
+            if not lit or any(isinstance(x, str) for x in du[1]) or is_unknown(v) or v is None or self.loopstack:
+                self.env[nm] = Unknown(f"dict `{nm}` stored into with a key or value that is not determined")
+                return
+            if aug:
+                self.env[nm] = Unknown(f"in-place update of an entry of dict `{nm}`")
+                return
+            parts, hit = [], False
+            for k_, x_ in zip(du[1][0::2], du[1][1::2]):
+                if same(k_, key):
+                    parts += [k_, wrap(v)]
+                    hit = True
+                else:
+                    parts += [k_, x_]
+            if not hit:
+                parts += [key, wrap(v)]
+            try:
+                self.env[nm] = F.fn("dict", *parts)
+            except Unsupported as e:
+                self.env[nm] = Unknown(str(e))
             return
         return super()._assign(target, v, st, aug)
 
@@ -2053,6 +2317,28 @@ class XEval(AutoEvaluator):
                      or (isinstance(st.value, ast.Call) and dotted(st.value.func) == "list" and not st.value.args and not st.value.keywords)):
             self.lists[st.targets[0].id] = (len(self.loopstack), len(self.path))
             self.env[st.targets[0].id] = ()
+            return
+        if isinstance(st, ast.Expr) and isinstance(st.value, ast.Call) and isinstance(st.value.func, ast.Attribute) and st.value.func.attr == "update" \
+                and isinstance(st.value.func.value, ast.Name) and st.value.func.value.id in self.env and st.value.func.value.id not in self.buffers \
+                and not isinstance(self.env[st.value.func.value.id], tuple) and app(self.env[st.value.func.value.id], "dict") is not None:
+            # (pass 5) table.update(name=value, ...) / table.update({...}) on a local dict: one store per entry
+            nm = st.value.func.value.id
+            items = [(ast.Constant(value=k.arg), k.value) for k in st.value.keywords if k.arg is not None]
+            okay = all(k.arg is not None for k in st.value.keywords) and len(st.value.args) <= 1
+            if okay and st.value.args:
+                a0 = st.value.args[0]
+                if isinstance(a0, ast.Dict) and all(k is not None for k in a0.keys):
+                    items = list(zip(a0.keys, a0.values)) + items
+                else:
+                    okay = False
+            if not okay:
+                self.env[nm] = Unknown(f"dict `{nm}` updated from something that is not a literal")
+                return
+            for k_, v_ in items:
+                tgt = ast.Subscript(value=ast.Name(id=nm, ctx=ast.Load()), slice=k_, ctx=ast.Store())
+                ast.copy_location(tgt, st)
+                ast.fix_missing_locations(tgt)
+                self._assign(tgt, self.ev(v_), st)
             return
         if isinstance(st, ast.Expr) and isinstance(st.value, ast.Call) and isinstance(st.value.func, ast.Attribute) and st.value.func.attr == "append" \
                 and isinstance(st.value.func.value, ast.Name) and st.value.func.value.id in self.lists and len(st.value.args) == 1 and not st.value.keywords:
@@ -2552,7 +2838,7 @@ class Degrees:
     roots: {symbol name: degree}; every other symbol has degree 0 except array symbols, whose degree is derived from what was stored.
     None = unknown (an opaque function of a scaled quantity)."""
 
-    LINEAR = {"abs": 0, "call:np.max": 0, "call:np.min": 0, "call:np.sum": 0, "call:np.mean": 0, "call:np.ptp": 0, "call:np.std": 0,
+    LINEAR = {"transposed": 0, "abs": 0, "call:np.max": 0, "call:np.min": 0, "call:np.sum": 0, "call:np.mean": 0, "call:np.ptp": 0, "call:np.std": 0,
               "call:signal.detrend": 0, "call:dsp.windowends": 0, "call:pd.DataFrame": 0, "call:pd.Series": 0, "tile": 0, "call:DataFrame": 0, "call:Series": 0,
               "call:np.sort": 0, "call:np.cumsum": 0, "call:np.ravel": 0, "call:np.array": 0, "star": 0, "call:np.asarray": 0,
               "call:float": 0, "call:np.tile": 0, "call:np.maximum.accumulate": 0, "call:np.fmax": None, "call:np.fmin": None}
@@ -2614,6 +2900,39 @@ class Degrees:
         if not self.busy:
             self.memo[(s, self.at)] = d
         return d
+
+    def _of_part(self, s, ix):
+        """(pass 5) degree of the part of array `s` selected by the index list `ix` when the array as a whole holds quantities of different
+        degree and no store was made at exactly this index (a row `T[2]` of a table filled by `T[2, j] = ...`): the common degree of the
+        creating value and of every store that may touch the part (stores at another constant position of an axis do not); None when they
+        disagree or a touching store updates the array from itself"""
+        key = ("part", s, tuple(repr(x) for x in ix))
+        if key in self.busy:
+            return None
+        self.busy.add(key)
+        try:
+            init = self.S.tr.inits.get(s)
+            ds = [ANY if init is None else self.of(init)]
+            for c, cx in zip(self.S.tr.cells, self.S.tr.cellx):
+                if c[0] != s:
+                    continue
+                if self.at is not None and cx["seq"] > self.at:
+                    continue
+                if is_unknown(c[1]) or is_unknown(c[2]):
+                    return None
+                _, cix = peel(F.fn("idx", F.sym(s), c[1]))
+                if any(const_of(p) is not None and const_of(q) is not None and const_of(p) != const_of(q) and const_of(p) >= 0 and const_of(q) >= 0
+                       for p, q in zip(ix, cix)):
+                    continue
+                if not isinstance(c[2], tuple) and depends(c[2], s):
+                    return None
+                ds.append(self.of(c[2]))
+            try:
+                return self._common(ds)
+            except Inhomogeneous:
+                return None
+        finally:
+            self.busy.discard(key)
 
     def _common(self, ds):
         out = ANY
@@ -2734,7 +3053,7 @@ class Degrees:
                                 return self.of(c[2])
                             finally:
                                 self.busy.discard(key)
-                return None
+                return self._of_part(s, ix)
             return self.of(base)
         if name in ("tuple", "hcat", "fstr", "zip", "enumerate"):
             try:
